@@ -459,6 +459,10 @@ func fieldByName(r reflect.Value, name string) reflect.Value {
 // numeric types when that loses nothing, and anything can be used as a string
 // through CoerceString. The second result is false if val cannot be used.
 func convertValue(val Value, t reflect.Type) (reflect.Value, bool) {
+	if sv, ok := val.(SafeValue); ok && !reflect.TypeOf(val).AssignableTo(t) && !nilReceiver(sv, "Value") {
+		// A value marked as safe is, as a key or an argument, the value inside.
+		return convertValue(sv.Value(), t)
+	}
 	rv := reflect.ValueOf(val)
 	if !rv.IsValid() {
 		switch t.Kind() {
